@@ -129,6 +129,10 @@ def run(tier, seed):
         keyed = "(L (P na i1) (P nb i2) (P nc i3))"
         extra_inputs = [("(Z %s (R i0 i0))" % keyed, {"a": "i1"}), ("(Z %s (R i1 i2))" % keyed, {"b": "i2", "c": "i3"}),
                         ("(Z %s (R i0 i2))" % keyed, {"a": "i1", "b": "i2", "c": "i3"}),
+                        # range ends at / past the list's length (the lookup clamps the end to the last item)
+                        ("(Z %s (R i1 i3))" % keyed, {"b": "i2", "c": "i3"}), ("(Z %s (R i0 i3))" % keyed, {"a": "i1", "b": "i2", "c": "i3"}),
+                        ("(Z %s (R i2 i9))" % keyed, {"c": "i3"}), ("(Z (L (P na i1) (P nb i2)) (R i0 i2))", {"a": "i1", "b": "i2"}),
+                        ("(Z (L (P na i1)) (R i0 i1))", {"a": "i1"}),
                         ("(K (L (P na i1)) (L (P nb i2) i9))", {"a": "i1", "b": "i2"}),
                         ("(Z (K (L (P na i1)) (L (P nb i2) (P nc i3))) (R i1 i2))", {"b": "i2", "c": "i3"})]
         ecases, want = [], []
